@@ -1005,7 +1005,7 @@ def dense_case(run, rng, code):
             d = fl.dense_decode(code, n, labs)
             full = (code % NR == r)
             exercise(run, rng, d, 0, list(labs), fsa_build.ROUTES[r], Lw=4 if full else 3,
-                     Le=4 if full else 3, derived=full)
+                     Le=4 if full else 3, derived=full, all_starts=full)
             return
         code -= size
 
